@@ -61,8 +61,9 @@ ASSUME = [
     "history clause: after an operation the parents at an index tuple are the ones named by the taxa labels there (unique "
     "labels); when the matrix is unlabelled or the operation returned no labels (label carrying is C03's subject) the "
     "operation's index semantics are used; an operation that raises must leave the entries unchanged",
-    "dihybrid entries [a, a] of a heterozygous individual are asserted by no clause (the statement's 'equals the "
-    "enumeration' and 'zero for identical parents' contradict each other there); they are only counted",
+    "dihybrid entries [a, a] of a heterozygous individual: the statement's 'equals the enumeration' and 'zero for identical "
+    "parents' contradict each other there, so either value is accepted (on the unchanged tree the genetic classes report "
+    "zero, the genic classes the enumeration; the reading taken is counted per class); only a value that is neither is a violation",
     "trait labels are only observed (counter), the statement does not mention them; taxa labels are part of equivariance",
     "an exception from a constructor is counted as raised (DESIGN 2.1), except in the equivalence clauses routes/chunk/reorder "
     "where one side raising and the other not is a violation (sequence clause: a later request to a used factory object "
@@ -514,7 +515,18 @@ def case_mat(ctx, c):
     for idx in tuples:
         tc = tclass(scheme, idx, homoz)
         if tc == "female == male, heterozygous parent":
-            ctx.sumnote("dihybrid [a,a] entries of a heterozygous parent (asserted by no clause)")
+            # the statement gives two readings here (ASSUME): the enumerated value of the selfed heterozygote, or zero for
+            # "genetically identical parents".  Which one a class takes is left open; anything else satisfies neither.
+            ctx.sumnote("dihybrid [a,a] entries of a heterozygous parent (either reading of the statement accepted)")
+            exp = expected_entry(kind, cov_of(idx))
+            got = M[tuple(idx)]
+            as_enum, as_zero = close(got, exp, tol), close(got, 0.0 * exp, tol)
+            if as_enum != as_zero:
+                ctx.sumnote("dihybrid [a,a] of a heterozygous parent, reading taken by %s: %s" % (type(obj).__name__, "enumeration" if as_enum else "zero"))
+            ctx.check(clause, as_enum or as_zero, site, "entry == exact gamete enumeration of the selfed individual, or == 0 (the two readings of the statement)", tc,
+                      what="%s%s nself=%s: reported %s, enumeration %s" % (lib_class(scheme, kind).__name__, list(idx), nself_name(nself),
+                                                                          numpy.asarray(got).ravel()[:4].tolist(), numpy.ravel(exp)[:4].tolist()),
+                      witness=dict(summary, index=list(idx), reported=numpy.asarray(got), enumerated=exp), coords=coords)
             continue
         exp = expected_entry(kind, cov_of(idx))
         got = M[tuple(idx)]
